@@ -339,4 +339,22 @@ Section Nested.
     intros Hwf Hg Ht. destruct (nested_rounds (cost d ts) d ts) as [s [Hs Hm]]; auto.
     exists s. split; [now apply str_rec_er|exact Hm].
   Qed.
+
+  (* a reference answered with the text of that very reference: every round reproduces the string *)
+  Lemma nsubst_identity n ts : txt n = [TRef n] -> nsubst n ts = ts.
+  Proof.
+    intros Hn. induction ts as [|t ts IH]; [reflexivity|]. unfold nsubst in *. cbn [flat_map]. rewrite IH.
+    destruct t; try reflexivity. cbn [nsubst1]. destruct (str_eqb name n) eqn:E; [|reflexivity].
+    apply str_eqb_eq in E. subst. now rewrite Hn.
+  Qed.
+
+  Lemma identity_cycle_refused d ts n :
+    wf def retrieve nval ts -> nanchored d ts -> first_ref ts = Some n -> txt n = [TRef n] ->
+    resolve_string def retrieve (flatten ts) = Err [ETooMany].
+  Proof.
+    intros Hwf Ha Hf Hn. unfold resolve_string, resolve_leaf.
+    rewrite (expand_rec_diverges def retrieve (fun v => v = CStr (flatten ts))); [reflexivity| |reflexivity].
+    intros v ->. exists (CStr (flatten ts)). split; [|reflexivity].
+    rewrite expand_value_str, (nested_round ts n d Hwf Ha Hf), (nsubst_identity n ts Hn). reflexivity.
+  Qed.
 End Nested.
